@@ -834,7 +834,7 @@ func loopsConsume(e syntax.Expr) bool {
 }
 
 // `[\,-x]`: Go reads a range, the third-party parser three items
-var reEscapedRangeBound = regexp.MustCompile(`\\[^A-Za-z0-9|*+?.\[\]^$()\\-]-[^\]]`)
+var reEscapedRangeBound = regexp.MustCompile(`\\[^0-9xX|*+?.\[\]^$()\\-]-[^\]]`)
 
 var reQuantNothing = regexp.MustCompile(`\(\?[a-zA-Z-]*\)[*+?{]`)
 
